@@ -109,14 +109,22 @@ fn one_u8() -> u8 {
 fn check_extract(c: &Extract) -> CaseResult {
     let pr = r9::params();
     let n = &pr.n;
-    let id = expand_bytes(c.id_seed, c.id_len);
-    let hid = match (c.hid & 0x7f) % 3 {
+    let id = identity(c.id_seed, c.id_len);
+    let hid = match (c.hid & 0x3f) % 3 {
         0 => 3u8,
         x => x,
     };
     // bit 7 of `hid`: the stored k is a target v for (H1 + k)^-1, i.e. k := v^-1 - H1 mod N (the inverse the extraction computes is then v: short, sparse ...)
     let k = if c.craft_fail {
         (n - r9::h1(&id, hid)) % n
+    } else if c.hid & 0x40 != 0 {
+        // the stored k is a target S for the integer sum H1 + k (before reduction): k := S - H1, usable when that lies in [1, N-1]
+        let s = from_be(&c.k);
+        let h = r9::h1(&id, hid);
+        if s <= h || &s - &h >= *n || (&s % n).is_zero() {
+            return pass(false, "sum-target-out-of-reach");
+        }
+        &s - &h
     } else if c.hid & 0x80 != 0 {
         match crate::refimpl::field::mod_inv(&(from_be(&c.k) % n), n) {
             Some(vi) => (vi + n - r9::h1(&id, hid)) % n,
@@ -283,6 +291,16 @@ pub fn run(ctx: &Ctx) {
         (1..3u8, 0..=300usize, any::<u64>(), 1..4u8, prop_oneof![Just(384usize), 0..=400usize]).prop_map(|(which, z_len, z_seed, hid, w_len)| HCase { which, z_len, z_seed, hid, w_len })
     }, check_h);
 
+    ctx.exhaustive("structured_identities", "H1 and the three extractions for identities as applications write them (names, mailbox-style strings in several capitalisations, non-ASCII text, blanks at the edges, the empty string): exact values", || {
+        let mut v = Vec::new();
+        for i in 0..structured_identities().len() {
+            for hid in 1..=3u8 {
+                v.push(Extract { hid, k: Hex(expand_bytes(0x51d4 + i as u64, 32)), craft_fail: false, id_len: STRUCTURED_ID + i, id_seed: 0, pub_rep: (i % 6) as u8 });
+            }
+        }
+        v
+    }, check_extract);
+
     ctx.exhaustive("long_identities", "H1 / H2 and the three extractions for identities (resp. messages) of 122..129, 250..257, 1000, 4096, 8191, 8192, 65535, 65536, 70000 bytes: an identity is a byte string of any length (buffer caps, 8- and 16-bit length fields, limits borrowed from SM2's ENTL)", || {
         let mut v = Vec::new();
         for (i, l) in [122usize, 123, 127, 128, 129, 250, 251, 255, 256, 257, 1000, 4096, 8191, 8192, 65535, 65536, 70_000].iter().enumerate() {
@@ -325,6 +343,27 @@ pub fn run(ctx: &Ctx) {
     }, check_extract);
 
     let zl_step = ctx.tier.pick(5usize, 1usize);
+    ctx.exhaustive("extraction_crafted_sum", "master keys crafted so that the integer sum H1 + k (before reduction mod N) is a limb-wise neighbour of N (each limb equal to N's limb, one below, one above, 0 or all ones: 625 targets) or within 2 of N, 2N-2, 2^256: the comparison that decides the reduction ties with N in some limbs and differs in others", move || {
+        let n = &r9::params().n;
+        let nl = to_limbs(n);
+        let mut targets: Vec<BigUint> = Vec::new();
+        for code in 0..625u32 {
+            let mut l = [0u64; 4];
+            let mut c = code;
+            for i in 0..4 {
+                l[i] = match c % 5 { 0 => nl[i], 1 => nl[i].wrapping_sub(1), 2 => nl[i].wrapping_add(1), 3 => 0, _ => u64::MAX };
+                c /= 5;
+            }
+            targets.push(from_limbs(&l));
+        }
+        for d in 0..5u32 {
+            targets.push(n + d - 2u32);
+            targets.push(n * 2u32 - 2u32 - d);
+            targets.push((BigUint::one() << 256usize) + d - 2u32);
+        }
+        targets.iter().enumerate().map(|(i, t)| Extract { hid: 0x40 | (1 + (i % 3) as u8), k: Hex(t.to_bytes_be()), craft_fail: false, id_len: 1 + i % 23, id_seed: seed ^ (0x5e16 + i as u64), pub_rep: (i % 6) as u8 }).collect::<Vec<_>>()
+    }, check_extract);
+
     ctx.listed("extraction_zero_limb_master_keys", "master keys with an all-zero 64-bit limb (also the least significant one: multiples of 2^64) below a non-zero limb, three key kinds (every 5th pattern in the quick tier)", move || {
         let n = &r9::params().n;
         let mut v = Vec::new();
